@@ -355,8 +355,13 @@ pub fn load(config: &Config) -> Result<Context> {
             Ok(()) => (),
             Err(err) => {
                 // Not on stdout: in the sandbox child that is the pipe that
-                // carries the frames to the parent.
-                eprintln!("{:?}", err.wrap_err("Failed to load currency data"));
+                // carries the frames to the parent. And a diagnostic that
+                // cannot be written is no reason to stop.
+                let _ = writeln!(
+                    std::io::stderr(),
+                    "{:?}",
+                    err.wrap_err("Failed to load currency data")
+                );
             }
         }
     }
@@ -476,7 +481,8 @@ fn cached(
 
     if let Ok(file) = File::open(&path) {
         // Indicate error even though we're returning success.
-        eprintln!(
+        let _ = writeln!(
+            std::io::stderr(),
             "{:?}",
             Report::wrap_err(
                 err,
